@@ -1,18 +1,271 @@
-// facts re-reads /repo with go/ast and prints lean/CasbinVerif/Generated/Facts.lean.
+// facts re-reads /repo with go/ast and prints lean/CasbinVerif/Generated/Facts.lean:
+// the locking skeleton of every SyncedEnforcer method (lock operations on e.m and calls into the
+// embedded enforcer, in source order; a deferred unlock is listed last), the exported Enforcer
+// methods that have no synchronised wrapper, and the shape facts the Lean side relies on
+// (bodies are straight-line: no lock operation inside a branch, loop or closure).
 package main
 
 import (
 	"fmt"
+	"go/ast"
+	"go/parser"
+	"go/token"
 	"os"
+	"path/filepath"
+	"sort"
+	"strings"
 )
+
+type ev struct {
+	kind string // acqR acqW rel call wrapperCall spawn
+	name string
+}
+
+type wrapper struct {
+	name     string
+	file     string
+	line     int
+	body     []ev
+	deferred []ev
+	// lock operations found in a nested statement (branch, loop, closure): the straight-line
+	// reading of the body would be wrong
+	nestedLockOps int
+}
 
 func main() {
 	root := "/repo"
 	if len(os.Args) > 1 {
 		root = os.Args[1]
 	}
-	_ = root
+	fset := token.NewFileSet()
+	files, _ := filepath.Glob(filepath.Join(root, "*.go"))
+	sort.Strings(files)
+	var parsed []*ast.File
+	var names []string
+	for _, f := range files {
+		if strings.HasSuffix(f, "_test.go") {
+			continue
+		}
+		af, err := parser.ParseFile(fset, f, nil, 0)
+		if err != nil {
+			fmt.Fprintln(os.Stderr, "parse error:", err)
+			os.Exit(1)
+		}
+		parsed = append(parsed, af)
+		names = append(names, filepath.Base(f))
+	}
+	recvOf := func(fd *ast.FuncDecl) string {
+		if fd.Recv == nil || len(fd.Recv.List) == 0 {
+			return ""
+		}
+		t := fd.Recv.List[0].Type
+		if st, ok := t.(*ast.StarExpr); ok {
+			t = st.X
+		}
+		if id, ok := t.(*ast.Ident); ok {
+			return id.Name
+		}
+		return ""
+	}
+	synced := map[string]bool{}
+	enforcerExported := map[string]bool{}
+	for _, af := range parsed {
+		for _, d := range af.Decls {
+			fd, ok := d.(*ast.FuncDecl)
+			if !ok {
+				continue
+			}
+			switch recvOf(fd) {
+			case "SyncedEnforcer":
+				synced[fd.Name.Name] = true
+			case "Enforcer":
+				if fd.Name.IsExported() {
+					enforcerExported[fd.Name.Name] = true
+				}
+			}
+		}
+	}
+	var wrappers []*wrapper
+	for fi, af := range parsed {
+		for _, d := range af.Decls {
+			fd, ok := d.(*ast.FuncDecl)
+			if !ok || recvOf(fd) != "SyncedEnforcer" || fd.Body == nil {
+				continue
+			}
+			recv := ""
+			if len(fd.Recv.List[0].Names) > 0 {
+				recv = fd.Recv.List[0].Names[0].Name
+			}
+			w := &wrapper{name: fd.Name.Name, file: names[fi], line: fset.Position(fd.Pos()).Line}
+			// classify a call expression
+			classify := func(call *ast.CallExpr) (ev, bool) {
+				sel, ok := call.Fun.(*ast.SelectorExpr)
+				if !ok {
+					return ev{}, false
+				}
+				// e.m.Lock() etc.
+				if inner, ok := sel.X.(*ast.SelectorExpr); ok {
+					if id, ok := inner.X.(*ast.Ident); ok && id.Name == recv {
+						if inner.Sel.Name == "m" {
+							switch sel.Sel.Name {
+							case "Lock":
+								return ev{"acqW", ""}, true
+							case "RLock":
+								return ev{"acqR", ""}, true
+							case "Unlock", "RUnlock":
+								return ev{"rel", ""}, true
+							}
+						}
+						if inner.Sel.Name == "Enforcer" {
+							return ev{"call", sel.Sel.Name}, true
+						}
+					}
+				}
+				if id, ok := sel.X.(*ast.Ident); ok && id.Name == recv {
+					if synced[sel.Sel.Name] {
+						return ev{"wrapperCall", sel.Sel.Name}, true
+					}
+					return ev{"call", sel.Sel.Name}, true
+				}
+				return ev{}, false
+			}
+			var walkExpr func(n ast.Node, nested bool, inGo bool)
+			walkExpr = func(n ast.Node, nested bool, inGo bool) {
+				ast.Inspect(n, func(x ast.Node) bool {
+					switch t := x.(type) {
+					case *ast.FuncLit:
+						// a closure: anything inside runs some other time
+						walkExpr(t.Body, true, inGo)
+						return false
+					case *ast.CallExpr:
+						// arguments first (evaluation order), then the call itself
+						for _, a := range t.Args {
+							walkExpr(a, nested, inGo)
+						}
+						if e, ok := classify(t); ok {
+							isLock := e.kind == "acqR" || e.kind == "acqW" || e.kind == "rel"
+							switch {
+							case inGo && (e.kind == "wrapperCall" || e.kind == "call"):
+								w.body = append(w.body, ev{"spawn", e.name})
+							case nested && isLock:
+								w.nestedLockOps++
+							default:
+								w.body = append(w.body, e)
+							}
+						}
+						if sel, ok := t.Fun.(*ast.SelectorExpr); ok {
+							walkExpr(sel.X, nested, inGo)
+						} else {
+							walkExpr(t.Fun, nested, inGo)
+						}
+						return false
+					}
+					return true
+				})
+			}
+			var walkStmts func(stmts []ast.Stmt, nested bool)
+			walkStmts = func(stmts []ast.Stmt, nested bool) {
+				for _, st := range stmts {
+					switch t := st.(type) {
+					case *ast.DeferStmt:
+						if e, ok := classify(t.Call); ok && !nested {
+							w.deferred = append([]ev{e}, w.deferred...)
+						} else if ok {
+							w.nestedLockOps++
+						} else {
+							walkExpr(t.Call, true, false)
+						}
+					case *ast.GoStmt:
+						walkExpr(t.Call, true, true)
+					case *ast.IfStmt:
+						if t.Init != nil {
+							walkStmts([]ast.Stmt{t.Init}, nested)
+						}
+						walkExpr(t.Cond, nested, false)
+						// calls into the enforcer inside a branch are kept (they are accesses made
+						// while whatever is held is held); lock operations there are not straight-line
+						walkStmts(t.Body.List, true)
+						if t.Else != nil {
+							walkStmts([]ast.Stmt{t.Else}, true)
+						}
+					case *ast.BlockStmt:
+						walkStmts(t.List, nested)
+					case *ast.ForStmt:
+						walkStmts(t.Body.List, true)
+					case *ast.RangeStmt:
+						walkExpr(t.X, nested, false)
+						walkStmts(t.Body.List, true)
+					case *ast.SwitchStmt, *ast.TypeSwitchStmt, *ast.SelectStmt:
+						walkExpr(t, true, false)
+					default:
+						walkExpr(st, nested, false)
+					}
+				}
+			}
+			walkStmts(fd.Body.List, false)
+			w.body = append(w.body, w.deferred...)
+			wrappers = append(wrappers, w)
+		}
+	}
+	sort.Slice(wrappers, func(i, j int) bool { return wrappers[i].name < wrappers[j].name })
+	var unwrapped []string
+	for n := range enforcerExported {
+		if !synced[n] {
+			unwrapped = append(unwrapped, n)
+		}
+	}
+	sort.Strings(unwrapped)
+
+	fmt.Println("import CasbinVerif.Model.Sync")
 	fmt.Println("/- GENERATED by harness/cmd/facts from /repo on every run; do not edit. -/")
 	fmt.Println("namespace Casbin.Facts")
+	fmt.Println("open Casbin.Sync")
+	fmt.Println()
+	fmt.Println("/-- every method of *SyncedEnforcer: lock operations and calls into the embedded enforcer, in order -/")
+	fmt.Println("def lockTable : List Wrapper := [")
+	for i, w := range wrappers {
+		var parts []string
+		for _, e := range w.body {
+			switch e.kind {
+			case "acqR":
+				parts = append(parts, ".acq .R")
+			case "acqW":
+				parts = append(parts, ".acq .W")
+			case "rel":
+				parts = append(parts, ".rel")
+			case "call":
+				parts = append(parts, fmt.Sprintf(".call %q", e.name))
+			case "wrapperCall":
+				parts = append(parts, fmt.Sprintf(".wrapperCall %q", e.name))
+			case "spawn":
+				parts = append(parts, fmt.Sprintf(".spawn %q", e.name))
+			}
+		}
+		sep := ","
+		if i == len(wrappers)-1 {
+			sep = ""
+		}
+		fmt.Printf("  { name := %q, body := [%s] }%s  -- %s:%d\n", w.name, strings.Join(parts, ", "), sep, w.file, w.line)
+	}
+	fmt.Println("]")
+	fmt.Println()
+	nested := 0
+	for _, w := range wrappers {
+		nested += w.nestedLockOps
+	}
+	fmt.Println("/-- lock operations found inside a branch, loop, closure or goroutine (the straight-line reading needs 0) -/")
+	fmt.Printf("def nestedLockOps : Nat := %d\n", nested)
+	fmt.Println()
+	fmt.Println("/-- exported *Enforcer methods that *SyncedEnforcer does not wrap (promoted unsynchronised) -/")
+	fmt.Println("def unwrapped : List String := [")
+	for i, n := range unwrapped {
+		sep := ","
+		if i == len(unwrapped)-1 {
+			sep = ""
+		}
+		fmt.Printf("  %q%s\n", n, sep)
+	}
+	fmt.Println("]")
+	fmt.Println()
 	fmt.Println("end Casbin.Facts")
 }
